@@ -100,10 +100,21 @@ class PandasCheckBackend(BaseCheckBackend):
             return check_obj
         return cast(
             Dict[str, pd.Series],
-            self._format_groupby_input(
-                self.groupby(check_obj), self.check.groups
+            self._drop_group_nulls(
+                self._format_groupby_input(
+                    self.groupby(check_obj), self.check.groups
+                )
             ),
         )
+
+    def _drop_group_nulls(self, groups):
+        """Remove the null elements of each group when nulls are ignored."""
+        if not self.check.ignore_na:
+            return groups
+        return {
+            k: group.dropna() if group.hasnans else group
+            for k, group in groups.items()
+        }
 
     def preprocess_table_with_key(
         self,
@@ -116,8 +127,10 @@ class PandasCheckBackend(BaseCheckBackend):
             return check_obj[key]
         return cast(
             Dict[str, pd.DataFrame],
-            self._format_groupby_input(
-                self.groupby(check_obj)[key], self.check.groups
+            self._drop_group_nulls(
+                self._format_groupby_input(
+                    self.groupby(check_obj)[key], self.check.groups
+                )
             ),
         )
 
